@@ -172,6 +172,9 @@ static Bytes some_compressed(Rng &rng, int tier, Bytes *plain_out, std::string *
 }
 
 // ===================================================================== C09
+static Bytes queue_filler(Rng &rng, int W, std::string *desc);
+static void stall_a_worker(Rng &rng, RunCfg &r);
+
 struct C09 : Driver {
   const char *prop() const override { return "C09"; }
   const char *level() const override { return "exploration"; }
@@ -186,11 +189,14 @@ struct C09 : Driver {
     Rng rng(seed);
     Case c; c.prop = "C09";
     Bytes plain; int validity;
-    c.data = some_compressed(rng, tier, &plain, &c.data_desc, &validity);
+    int fillW = rng.below(12) == 0 ? 2 + (int)rng.below(3) : 0;     // queue-filler input: the configurations then disagree on the exit status if a scheduler queue overflows for some worker counts only
+    if (fillW) { c.data = queue_filler(rng, fillW, &c.data_desc); validity = bz::V_VALID; plain = bz::refdec(c.data).out; }
+    else c.data = some_compressed(rng, tier, &plain, &c.data_desc, &validity);
     c.p["validity"] = validity;
     int K = tier ? 12 + (int)rng.below(5) : 6;
     for (int k = 0; k < K; k++) {
-      RunCfg r = decompress_cfg(rng, k == 0 ? 1 : random_workers(rng), k != 0, c.data.size(), plain.size());
+      RunCfg r = decompress_cfg(rng, k == 0 ? 1 : fillW && rng.below(3) ? fillW : random_workers(rng), k != 0, c.data.size(), plain.size());
+      if (fillW && k != 0 && rng.below(4)) stall_a_worker(rng, r);
       if (k == 0) { r.sched = sim::Sched(); r.sched.policy = sim::P_DEFAULT; }
       else {
         if (rng.below(10) == 0) use_default_workers(r);
